@@ -175,6 +175,43 @@ def deep_value(prog, edges, cls, depth, path_edge=None):
     return ["d", out] if c["kind"] == "typeddict" else ["o", cls, out]
 
 
+def _mapping_at(v, level):
+    """v with the instance node at nesting `level` (along the first instance-valued member) replaced by the mapping of its members."""
+    if not (isinstance(v, list) and v and v[0] == "o"):
+        return None
+    if level == 0:
+        return ["d", v[2]]
+
+    def first_instance(x):
+        if isinstance(x, list) and x and x[0] == "o":
+            return True
+        return False
+    out = []
+    done = False
+    for fn, fv in v[2]:
+        if not done:
+            if first_instance(fv):
+                sub = _mapping_at(fv, level - 1)
+                if sub is not None:
+                    out.append([fn, sub])
+                    done = True
+                    continue
+            elif isinstance(fv, list) and fv and fv[0] in ("l", "t") and fv[1] and first_instance(fv[1][0]):
+                sub = _mapping_at(fv[1][0], level - 1)
+                if sub is not None:
+                    out.append([fn, [fv[0], [sub] + fv[1][1:]]])
+                    done = True
+                    continue
+            elif isinstance(fv, list) and fv and fv[0] == "d" and fv[1] and first_instance(fv[1][0][1]):
+                sub = _mapping_at(fv[1][0][1], level - 1)
+                if sub is not None:
+                    out.append([fn, ["d", [[fv[1][0][0], sub]] + fv[1][1:]]])
+                    done = True
+                    continue
+        out.append([fn, fv])
+    return ["o", v[1], out] if done else None
+
+
 def root_variants(cls, v):
     return [(["cls", cls], v),
             (["coll", "list", ["cls", cls], {"sp": "builtin"}], ["l", [v]]),
@@ -288,6 +325,13 @@ def explore(ctx):
                 variants = root_variants(cls, v)
                 for ts, val in ([variants[0]] + [r.choice(variants[1:])]):
                     ops.append({"op": "rt", "ty": ts, "val": val, "depth": d})
+                # the same value with ONE level given as a plain mapping of its members (a source like any other): marshalled like
+                # the all-instance value, level by level
+                if d in depths[1:4] or d == depths[-1]:
+                    k = r.randint(0, min(d, 3))
+                    mv = _mapping_at(v, k)
+                    if mv is not None:
+                        ops.append({"op": "mar", "ty": ["cls", cls], "val": mv, "depth": d, "twin": len(ops) - 2, "level": k})
         jobs.append({"prog": prog, "ops": ops, "top": [n, edges]})
     # (the harness's own encoders recurse on the values: give the parent room)
     import sys
@@ -307,6 +351,18 @@ def explore(ctx):
             res.case(case, True)
             res.count(f"depth:{op['depth']}")
             inp = {"prog": job["prog"], "ty": op["ty"], "val": op["val"], **case}
+            if op["op"] == "mar":
+                twin = ro[op["twin"]].get("mar", {})
+                if op["depth"] >= 100 and ("recursion" in (r_.get("err"), twin.get("err"))):
+                    res.count("beyond-interpreter-recursion-limit")
+                elif "ok" in twin and not ("ok" in r_ and enc.canon(r_["ok"]) == enc.canon(twin["ok"])):
+                    res.failures.append({"what": f"with the node at level {op['level']} given as a mapping of its members, marshal differs from the "
+                                                 f"all-instance value at nesting depth {op['depth']}", "input": inp,
+                                         "real": {"mapping-source": {k: v for k, v in r_.items() if k != "ok" or len(json.dumps(v)) < 400},
+                                                  "instances": {k: v for k, v in twin.items() if k != "ok" or len(json.dumps(v)) < 400}}})
+                else:
+                    res.count("oracle:mapping-source-level-converted")
+                continue
             if op["depth"] >= 100 and any(r_.get(w, {}).get("err") == "recursion" for w in ("mar", "um")):
                 # the property holds "below the interpreter's recursion limit": ~6-8 interpreter frames per level put depth >= 100
                 # near the default limit of 1000 for some edge kinds. (A RecursionError at a SMALL depth is reported.)
